@@ -585,8 +585,24 @@ def run(ctx):
 
 
 META = {
-    "claimed": False,
-    "reason": "C05 under construction",
-    "level": "",
-    "note": "",
+    "claimed": True,
+    "level": ("Proved in Lean for every configuration whose preference lists hold table names (the invariant "
+              "SecurityOptions enforces; proved preserved by the kex setter and by _send_kex_init, decided for the class "
+              "defaults) and for EVERY peer KEXINIT (unknown names, empty lists, duplicates, markers anywhere): after its "
+              "own _send_kex_init a transport of either role agrees, in all eight categories, on the first name of the "
+              "client's list that the server's list contains, or raises IncompatiblePeer — exactly when some category has "
+              "no common name (follows_rfc, incompatible_iff); two paramiko peers exchanging KEXINITs over the wire "
+              "compute the same tuple or both fail (peers_agree); the advertised lists are the accepted lists incl. a "
+              "moduli-less server (advertised_eq_accepted, send_idempotent); with no well-formedness assumption at all: "
+              "no agreed or advertised name is locally disabled (cert variants included), the agreed kex is never a "
+              "marker and is a name the peer listed. Tables/preference tuples are regenerated from transport.py each run. "
+              "Tied by differential runs of the real _send_kex_init/_parse_kex_init (both roles, two rounds, plus "
+              "hand-built hostile KEXINITs). Two defects found and fixed (857cd48, 6da136d)."),
+    "note": ("Trusted: Lean kernel + 3 standard axioms; the harness (generators, own KEXINIT parser, first-common oracle); "
+             "Message.add_list/get_list = joinComma/splitComma (C39); UTF-8 decoding of names. The strict-kex sequence "
+             "check inside _parse_kex_init is modelled and compared but is C09's subject (theorems assume seqno = 0 or "
+             "a rekey). GSS-API kex (gss_kex=True) only enters through the generated tables (no GSS library here). "
+             "Directly assigning _preferred_* with names outside the tables is outside the property (modelled: "
+             "ValueError/KeyError branches are compared, not judged)."),
+    "technique": "Lean 4 proof (list filter/find algebra, case analysis over the negotiation pipeline) + differential correspondence",
 }
